@@ -545,17 +545,22 @@ Fixpoint sw_inner_structs_of (shared : eshared) (vs : list rvariant) : SM (list 
   | _ :: r => sw_inner_structs_of shared r
   end.
 
-(* swift.rs:557-574 one variant of a unit enum *)
+(* swift.rs:557-589 one variant of a unit enum (fix 31: :565-580 a camelCased name that starts with a digit
+   gets `_` in front, as in the algebraic arm below) *)
 Definition sw_unit_variant_of (v : rvariant) : SM sw_variant :=
   let vsh := variant_shared v in
-  mdo variant_name <- sw_lift (to_camel_case (original (vid vsh)));
+  mdo camel <- sw_lift (to_camel_case (original (vid vsh)));
+  let variant_name := match camel with
+                      | c :: _ => if is_adigit c then lit "_" ++ camel else camel
+                      | [] => camel
+                      end in
   ret {| swv_docs := sw_docs (vcomments vsh);
          swv_name := variant_name;
          swv_escaped := sw_is_keyword variant_name;
          swv_raw := if str_eqb (renamed (vid vsh)) variant_name then None else Some (renamed (vid vsh));
          swv_payload := SWPUnit |}.
 
-(* swift.rs:582-731 one variant of an algebraic enum *)
+(* swift.rs:597-746 one variant of an algebraic enum *)
 Definition sw_variant_of (shared : eshared) (v : rvariant) : SM sw_variant :=
   let vsh := variant_shared v in
   let generics := egenerics shared in
